@@ -22,7 +22,8 @@ ASSUMPTIONS = ['min z is taken from uts.zscore.zscore_array(x, uts.gradient.csd(
 
 @st.composite
 def cases(draw, tier):
-    n = draw(st.one_of(st.integers(4, 16), st.integers(4, 60 if tier == 'quick' else 400)))
+    n = draw(st.one_of(st.integers(4, 16), st.integers(4, 16), st.integers(4, 60 if tier == 'quick' else 400),
+                      st.integers(4, 60 if tier == 'quick' else 400), st.integers(60, 200 if tier == 'quick' else 800)))
     fam = draw(st.sampled_from(['mono', 'mono', 'noisy', 'plateau', 'ones', 'steps', 'bursts', 'convex']))
     steps = draw(st.lists(st.integers(1, draw(st.sampled_from([1, 3, 50]))), min_size=n - 1, max_size=n - 1))
     x = [float(draw(st.integers(0, 20)))]
